@@ -219,6 +219,35 @@ func c30One(c *fw.Ctx, idx int64, cfg []secKey) {
 	} else {
 		c.Inconclusive(fmt.Sprintf("GetEndpoints over the %s channel failed: %v %T", usableKey, err, v))
 	}
+	// neither must an OpenSecureChannel request that arrives as an ordinary (MSG typed, symmetrically secured) message
+	// of an open channel
+	if usableKey.Mode == 2 || usableKey.Mode == 3 {
+		other := secKey{usableKey.URI, 5 - usableKey.Mode}
+		if ch2, ok, _ := c30Open(addr, rs.Endpoint, usableKey, sk); ok && !inCfg[other] {
+			for _, rt := range []ua.SecurityTokenRequestType{ua.SecurityTokenRequestTypeRenew, ua.SecurityTokenRequestTypeIssue} {
+				nonce := make([]byte, refpeer.PolicyByURI(usableKey.URI).NonceLen)
+				for i := range nonce {
+					nonce[i] = byte(7 * i)
+				}
+				v, err := ch2.Request(&ua.OpenSecureChannelRequest{ClientProtocolVersion: 0, RequestType: rt, SecurityMode: ua.MessageSecurityMode(other.Mode), ClientNonce: nonce, RequestedLifetime: 600000}, nil, 8*time.Second)
+				c.Eval(1)
+				resp, _ := v.(*ua.OpenSecureChannelResponse)
+				granted := err == nil && resp != nil && resp.SecurityToken != nil && (resp.ResponseHeader == nil || resp.ResponseHeader.ServiceResult == ua.StatusOK)
+				c.Class(fmt.Sprintf("msg-typed-open-request-for-other-mode:granted=%v", granted), 1)
+				if granted {
+					cs.Attempt, cs.Detail = "OpenSecureChannelRequest in a MSG message: "+usableKey.String()+" -> "+other.String(), "request granted"
+					c.Violation("c30:msg-typed-request-switched-to-mode-not-enabled:"+other.String(), fmt.Sprintf("server configured with %v answered an OpenSecureChannel request for %s, sent as a MSG message of a %s channel, with a security token", names, other, usableKey), cs)
+					break
+				}
+				if err != nil {
+					break // the server has closed the channel
+				}
+			}
+			ch2.Close()
+		} else if ok {
+			ch2.Close()
+		}
+	}
 	// a renewal must not move an open channel to a mode that is not enabled
 	if usableKey.Mode == 2 || usableKey.Mode == 3 {
 		other := secKey{usableKey.URI, 5 - usableKey.Mode}
@@ -488,7 +517,7 @@ func init() {
 	fw.Register("C30", fw.Spec{
 		Plan: func(tier string) fw.Plan {
 			p := fw.Plan{Batches: 8, TimeoutS: 900, MinNontrivial: 400, Level: "exploration",
-				Rule:        "real servers configured with subsets of the 11 supported policy/mode pairs (quick: 11 singletons + 15 random subsets; thorough: singletons, all 55 two-element subsets, 340 random subsets); against each, the independent scripted client sends OpenSecureChannel with each of the 11 pairs and 14 unsupported combinations (policy None with Sign/SignAndEncrypt/invalid modes, secured policies with mode None/invalid), a renewal that asks for the other mode, GetEndpoints, and the real opcua.Client connects with one enabled and one not enabled pair; oracle: a channel is established iff the pair is configured, advertised pairs = configured pairs; distinct = (configuration, attempt)",
+				Rule:        "real servers configured with subsets of the 11 supported policy/mode pairs (quick: 11 singletons + 15 random subsets; thorough: singletons, all 55 two-element subsets, 340 random subsets); against each, the independent scripted client sends OpenSecureChannel with each of the 11 pairs and 14 unsupported combinations (policy None with Sign/SignAndEncrypt/invalid modes, secured policies with mode None/invalid), a renewal that asks for the other mode, the same request sent as a MSG typed message of the open channel, GetEndpoints, and the real opcua.Client connects with one enabled and one not enabled pair; oracle: a channel is established iff the pair is configured, advertised pairs = configured pairs; distinct = (configuration, attempt)",
 				Assumptions: []string{"a server without any EnableSecurity option is outside the quantifier (the pinned test suite requires it to accept None/None)", "an unanswered OpenSecureChannel for a pair that is not enabled counts as refused; for an enabled pair it is inconclusive"}}
 			if tier == "thorough" {
 				p.Batches, p.TimeoutS, p.MinNontrivial = 16, 3000, 5000
